@@ -127,8 +127,11 @@ func (c *Decoder) decodeErrorStatement() (*ast.ErrorStatement, error) {
 	var err error
 	stmt := &ast.ErrorStatement{}
 
-	if stmt.Code, err = c.decodeExpression(c.nextFrame()); err != nil {
-		return nil, errors.WithStack(err)
+	// Code is absent for bare "error;" statement
+	if isExpressionFrame(c.peekFrame()) {
+		if stmt.Code, err = c.decodeExpression(c.nextFrame()); err != nil {
+			return nil, errors.WithStack(err)
+		}
 	}
 
 	if isExpressionFrame(c.peekFrame()) {
